@@ -229,12 +229,13 @@ class JokerSamples:
                 "samples object already has a reference time."
             )
 
+        # The orbital phase advances with TCB (the scale of the data times and of
+        # the orbit): add the offsets in TCB, then return the time in t_ref's scale
         dt = (self["P"] * self["M0"] / (2 * np.pi)).to(u.day, u.dimensionless_angles())
-        t0 = t_ref + dt
+        t0 = t_ref.tcb + dt
 
-        return np.squeeze(
-            t0 + (self["P"] * phase / (2 * np.pi)).to(u.day, u.dimensionless_angles())
-        )
+        t = t0 + (self["P"] * phase / (2 * np.pi)).to(u.day, u.dimensionless_angles())
+        return np.squeeze(getattr(t, t_ref.scale))
 
     # TODO: make a property, after deprecation cycle, to replace .t0
     def get_t0(self, t_ref=None):
